@@ -62,6 +62,8 @@ class Contract:
         self.path_limit = 4000
         self.unfold_: list[str] = []
         self.strict_index: list[str] = []
+        self.local_contracts: dict[str, 'Contract'] = {}
+        self.replay_fields: list[str] = []
 
     # -- declaration helpers -------------------------------------------------
     def param(self, name: str, spec: str):
@@ -125,6 +127,13 @@ class Contract:
 
     def fieldspec(self, name: str, spec: str):
         self.fields[name] = parse_spec(spec)
+        return self
+
+    def callee(self, call_text: str, build):
+        """contract for one syntactic callee of this kernel (e.g. a class object held in a local)"""
+        c = Contract(f"local:{self.qualname}:{call_text}", self.props, "assumed")
+        build(c)
+        self.local_contracts[call_text] = c
         return self
 
 
